@@ -184,6 +184,18 @@ func init() {
 		}
 		return sx.L(sx.Sym("ok"), sx.B(c0), sx.L(sx.Sym("ok"), sx.Int(v.Compare(v2)), sx.B(v2.Canon(false))))
 	})
+	// sv_difference: (sys a b) -> ("ok" c d dumpA dumpB) | ("err"): System.Difference(a, b) with the dumps of both
+	// parsed versions (the model of Difference runs on the dumps)
+	register("sv_difference", func(a sx.V) sx.V {
+		sys := sysOf(a.Nth(0))
+		c, d, err := sys.Difference(a.Nth(1).Str(), a.Nth(2).Str())
+		if err != nil {
+			return sx.L(sx.Sym("err"))
+		}
+		va, _ := sys.Parse(a.Nth(1).Str())
+		vb, _ := sys.Parse(a.Nth(2).Str())
+		return sx.L(sx.Sym("ok"), sx.Int(c), sx.Int(int(d)), rawSx(semver.VerifDump(va)), rawSx(semver.VerifDump(vb)))
+	})
 	// sv_syscompare: (sys a b) -> System.Compare(a,b)
 	register("sv_syscompare", func(a sx.V) sx.V {
 		return sx.Int(sysOf(a.Nth(0)).Compare(a.Nth(1).Str(), a.Nth(2).Str()))
